@@ -369,10 +369,14 @@ def run_property(ctx, prop, tie, props, spec="e2_chan"):
         "Go memory model / runtime: critical sections are atomic, sync/atomic and channel operations are "
         "linearizable, select picks any ready case (DESIGN 4.4)",
         "correspondence harness harness/e2/*.go (generators, white-box dumps, canonicalisation, diff) — trusted not to hide differences",
-        "translator tools/go2lean (kinds stmts/errsites/calls/callers/mapwrites) renders the facts of nsqd/{channel,client_v2,protocol_v2}.go",
+        "translator tools/go2lean (kinds stmts/errsites/calls/callers/mapwrites) renders the facts of nsqd/{channel,client_v2,protocol_v2}.go; "
+        "kind afunc translates the clientV2 counter methods and IsReadyForMessages into Lean definitions (each sync/atomic operation read "
+        "as its sequentially consistent effect on the receiver field)",
         "go-diskqueue v1.1.0 modelled as a counted bag (Depth exact, FIFO not assumed); encoding/json, net/http (for /stats)",
     ]
     gen_ok, _ = ctx.gen(spec)
+    if "Nsq.Tie.ChanFunc" in tie:
+        ctx.gen("e2_chanfunc")     # clientV2 counters / IsReadyForMessages as translated definitions (kind afunc)
     ok, log = ctx.lean_build(tie + props)
     if not ok:
         ctx.lean_obligation_failed("lake build " + " ".join(tie + props), log[-1500:])
